@@ -16,6 +16,9 @@ import Rdm.Lemmas.RankingBasic
 import Rdm.Lemmas.RankingWellformed
 import Rdm.Lemmas.LinksConstructors
 import Rdm.Lemmas.NumRat
+import Rdm.Lemmas.E2EDecide
+import Rdm.Lemmas.E2EWellformed
+import Rdm.Lemmas.E2EExamples
 namespace Rdm.Props.C01
 open Rdm
 
@@ -169,5 +172,149 @@ theorem electre_wellformed (asc desc : List Int) (ids : List String)
 example : Spec.C01.check ["a", "b", "c"]
     ((evaluateRanking [0, 1, 1] [1, 0, 1] ["a", "b", "c"]).map fun e => (e.id, e.links)) = true :=
   electre_wellformed _ _ _ rfl rfl (by decide)
+
+/-! ## END TO END: the whole `MakeDecision` (model `decideWith` / `Rdm.decide` of Model/Decide.lean)
+
+The theorems above are per link constructor.  The ones below lift them to the whole request: validation,
+`prepareParams`, `ChooseBiases`, any sequence of the six biases with any stream function, then `Evaluate` of
+any of the seven methods.  Helper lemmas: `Rdm/Lemmas/E2EDecide.lean` (inversion of `decideWith`, the frame
+of `pipeline`: considered ids = `choseToMake`, the method and its current choice are never changed by a
+bias) and `Rdm/Lemmas/E2EWellformed.lean` (one lemma per method on top of the lemmas behind C05, C11–C13).
+
+**Domain.**  `req.chosen.Nodup`: `choseToMake` names pairwise different alternatives.  The service does NOT
+reject a `choseToMake` with a repeated id (`validateRequest` only checks that every id is known), and with a
+repeated id the result has two entries for it — so distinctness is the domain of the property (its quantifier
+text: "choseToMake listing ≥ 1 distinct known alternatives"), not something an accepted request guarantees.
+Nothing is assumed about `knownAlternatives` (ids there may repeat: the first match is fetched).
+
+**What has to be ranked** (`e2eExpected req.chosen cur`): `choseToMake`, plus the heuristic's `currentChoice`
+when one is given and it is not in `choseToMake` (majority, satisfaction: `GetAlternativesSearchOrder` looks
+it up among ALL known alternatives and puts it first) — exactly the `expected` list of `Spec.C01.check`.
+
+**No hypothesis on `aspOrder`** is needed: aspect elimination ranks every considered alternative exactly once
+whatever the examination order of the criteria is (it does not even have to be a permutation). -/
+
+/-- **C01, end to end, every number type with an irreflexive `<`** (`Float` — also for NaN — and `Rat`; only
+    `positionInRanking` of the three utility methods needs it): if the model of `MakeDecision` answers, for
+    whatever request, bias list, stream function `g`, exponential and aspect-elimination tie order, and
+    `choseToMake` lists distinct alternatives, then the checker the driver runs on Go's output accepts the
+    response: every alternative the decision maker had to choose from appears exactly once and no other, links
+    only name such alternatives, no self link, no duplicate link. -/
+theorem decideWith_wellformed {α : Type} [Num α] (hirr : ∀ x : α, ¬ x < x) (exp : α → α)
+    (aspOrder : List (WCrit α) → List (WCrit α)) (req : Request α) (g : Int → Draws α) (resp : Response α)
+    (h : decideWith exp aspOrder req g = .ok resp) (hnd : req.chosen.Nodup) :
+    ∃ mp, req.mp = some mp ∧
+      Spec.C01.check (e2eExpected req.chosen (e2eCur mp)) (resp.result.map fun e => (e.id, e.links)) = true := by
+  obtain ⟨mp, hmp, hwf⟩ := e2e_decideWith_wellformed hirr h hnd
+  exact ⟨mp, hmp, hwf.check (e2eExpected_nodup _ _ hnd)⟩
+
+/-- … the same spelled out with `List` notions (through `check_iff_wellformed`) -/
+theorem decideWith_wellformed_spelled_out {α : Type} [Num α] (hirr : ∀ x : α, ¬ x < x) (exp : α → α)
+    (aspOrder : List (WCrit α) → List (WCrit α)) (req : Request α) (g : Int → Draws α) (resp : Response α)
+    (h : decideWith exp aspOrder req g = .ok resp) (hnd : req.chosen.Nodup) :
+    ∃ mp, req.mp = some mp ∧
+      (resp.result.map (·.id)).Perm (e2eExpected req.chosen (e2eCur mp)) ∧ (resp.result.map (·.id)).Nodup ∧
+      ∀ e ∈ resp.result, (∀ x ∈ e.links, x ∈ resp.result.map (·.id)) ∧ e.id ∉ e.links ∧ e.links.Nodup := by
+  obtain ⟨mp, hmp, hwf⟩ := e2e_decideWith_wellformed hirr h hnd
+  exact ⟨mp, hmp, hwf.1, hwf.1.nodup_iff.mpr (e2eExpected_nodup _ _ hnd), hwf.2⟩
+
+/-- **C01 for `Rdm.decide` over the rationals** (`MakeDecision` with the registered generators read from a seed
+    table and the descending-weight examination order): no side condition besides the domain -/
+theorem decide_wellformed (exp : Rat → Rat) (req : Request Rat) (seeds : Seeds Rat) (resp : Response Rat)
+    (h : Rdm.decide exp req seeds = .ok resp) (hnd : req.chosen.Nodup) :
+    ∃ mp, req.mp = some mp ∧
+      Spec.C01.check (e2eExpected req.chosen (e2eCur mp)) (resp.result.map fun e => (e.id, e.links)) = true :=
+  decideWith_wellformed (fun _ => Rat.lt_irrefl) exp _ req _ resp h hnd
+
+/-- what has to be ranked is `choseToMake` itself for the five methods without a current choice (the three
+    utility methods, electreIII, aspect elimination), when none is given, and when it is one of `choseToMake` -/
+theorem expected_is_choseToMake {α : Type} (chosen : List String) (mp : MParams α) :
+    ((∀ w cur s r d, mp ≠ .majority w cur s r d) ∧ (∀ f l s cur r, mp ≠ .satisf f l s cur r) →
+      e2eExpected chosen (e2eCur mp) = chosen) ∧
+    (e2eCur mp = "" → e2eExpected chosen (e2eCur mp) = chosen) ∧
+    (e2eCur mp ∈ chosen → e2eExpected chosen (e2eCur mp) = chosen) ∧
+    (e2eCur mp ≠ "" → e2eCur mp ∉ chosen → e2eExpected chosen (e2eCur mp) = e2eCur mp :: chosen) := by
+  refine ⟨?_, fun h => by rw [h]; rfl, e2eExpected_of_mem _ _, e2eExpected_of_not_mem _ _⟩
+  rintro ⟨h1, h2⟩
+  cases mp with
+  | majority w cur s r d => exact absurd rfl (h1 w cur s r d)
+  | satisf f l s cur r => exact absurd rfl (h2 f l s cur r)
+  | _ => rfl
+
+/-- **C01 in the form "`result` ranks exactly `choseToMake`"**: whenever the request's parameters carry no
+    current choice outside `choseToMake` — always the case for weightedSum, owa, choquetIntegral, electreIII
+    and aspect elimination -/
+theorem decideWith_ranks_choseToMake {α : Type} [Num α] (hirr : ∀ x : α, ¬ x < x) (exp : α → α)
+    (aspOrder : List (WCrit α) → List (WCrit α)) (req : Request α) (g : Int → Draws α) (resp : Response α)
+    (h : decideWith exp aspOrder req g = .ok resp) (hnd : req.chosen.Nodup)
+    (hcur : ∀ mp, req.mp = some mp → e2eCur mp = "" ∨ e2eCur mp ∈ req.chosen) :
+    Spec.C01.check req.chosen (resp.result.map fun e => (e.id, e.links)) = true := by
+  obtain ⟨mp, hmp, hc⟩ := decideWith_wellformed hirr exp aspOrder req g resp h hnd
+  rcases hcur mp hmp with h0 | hm
+  · rwa [((expected_is_choseToMake req.chosen mp).2.1 h0)] at hc
+  · rwa [((expected_is_choseToMake req.chosen mp).2.2.1 hm)] at hc
+
+/-- **frame of the whole decision (what the theorems above rest on)**: whatever biases ran, the state that
+    reached `Evaluate` (`resp.final`) has the considered / not-considered split `prepareParams` built from the
+    request — considered ids = `choseToMake`, not-considered ids = the known alternatives not named, both in
+    order —, its parameters are those of the same method with the same current choice (`e2eTag`), and the
+    response's `biases` lists exactly the enabled entries of the request, in request order, names echoed and
+    probabilities with the default filled in — all of them registered biases (an unknown enabled name is
+    rejected). -/
+theorem decideWith_frame {α : Type} [Num α] (exp : α → α) (aspOrder : List (WCrit α) → List (WCrit α))
+    (req : Request α) (g : Int → Draws α) (resp : Response α)
+    (h : decideWith exp aspOrder req g = .ok resp) :
+    ∃ mp params, req.mp = some mp ∧ prepareParams req mp = .ok params ∧
+      resp.final.co.map (·.id) = params.co.map (·.id) ∧ resp.final.nc.map (·.id) = params.nc.map (·.id) ∧
+      resp.final.co.map (·.id) = req.chosen ∧
+      resp.final.nc.map (·.id) = (req.known.filter fun a => !req.chosen.contains a.id).map (·.id) ∧
+      e2eTag resp.final.mp = e2eTag mp ∧
+      resp.biases.map (fun o => (o.name, o.prob)) =
+        (req.biases.filter (!·.disabled)).map
+          (fun b => (b.name, b.prob.getD (Num.ofConst Facts.defaultApplyProbability))) ∧
+      ∀ b ∈ req.biases, b.disabled = false → b.name ∈ availableBiases := by
+  obtain ⟨hp, _⟩ := e2e_decideWith_ok h
+  obtain ⟨mp, params, hmp, hpp, _, htag, hco, hnc, hb, hav⟩ := e2e_pipeline_frame hp
+  obtain ⟨hpco, _, hpnc, _⟩ := e2e_prepareParams_ok hpp
+  refine ⟨mp, params, hmp, hpp, by rw [hco, hpco], by rw [hnc, hpnc], hco, hnc, htag, hb, ?_⟩
+  intro b hb' hd
+  simpa using hav b hb' hd
+
+/-- … and it knows exactly the alternatives of the request when their ids (and `choseToMake`) are distinct -/
+theorem decideWith_keeps_known_alternatives {α : Type} [Num α] (exp : α → α)
+    (aspOrder : List (WCrit α) → List (WCrit α)) (req : Request α) (g : Int → Draws α) (resp : Response α)
+    (h : decideWith exp aspOrder req g = .ok resp) (hk : (req.known.map (·.id)).Nodup)
+    (hnd : req.chosen.Nodup) : (resp.final.all.map (·.id)).Perm (req.known.map (·.id)) :=
+  e2e_pipeline_all_ids (e2e_decideWith_ok h).1 hk hnd
+
+/-- the hypotheses are satisfiable, utility method: a weighted-sum request over four known alternatives, three
+    of them to choose from (two tied), with a fatigue that fires (it rewrites every value), a preference
+    reversal that does not (probability 1/2, draw 3/4) and a disabled entry — the model answers and the checker
+    accepts the answer against `choseToMake` -/
+example : ∃ resp, Rdm.decide id e2eExWs e2eExSeeds = .ok resp ∧
+    Spec.C01.check ["c", "a", "b"] (resp.result.map fun e => (e.id, e.links)) = true := by
+  obtain ⟨resp, h⟩ := e2e_ok_of_isOk (x := Rdm.decide id e2eExWs e2eExSeeds) (by decide +kernel)
+  exact ⟨resp, h, decideWith_ranks_choseToMake (fun _ => Rat.lt_irrefl) _ _ _ _ _ h (by decide)
+    (fun mp hmp => by cases hmp; exact Or.inl rfl)⟩
+
+/-- … and a heuristic whose current choice `"d"` is known but NOT in `choseToMake`: the majority heuristic
+    (draws allowed, fatigue fired before) ranks four alternatives, `"d"` and the three of `choseToMake` -/
+example : ∃ resp, Rdm.decide id e2eExMaj e2eExSeeds = .ok resp ∧
+    Spec.C01.check ["d", "c", "a", "b"] (resp.result.map fun e => (e.id, e.links)) = true := by
+  obtain ⟨resp, h⟩ := e2e_ok_of_isOk (x := Rdm.decide id e2eExMaj e2eExSeeds) (by decide +kernel)
+  obtain ⟨mp, hmp, hc⟩ := decide_wellformed _ _ _ _ h (by decide)
+  cases hmp
+  exact ⟨resp, h, hc⟩
+
+/-- the frame on the same request: the response lists the fatigue and the reversal (not the disabled entry),
+    probabilities 1 (default) and 1/2 -/
+example : ∃ resp, Rdm.decide id e2eExWs e2eExSeeds = .ok resp ∧
+    resp.final.co.map (·.id) = ["c", "a", "b"] ∧ resp.final.nc.map (·.id) = ["d"] ∧
+    resp.biases.map (fun o => (o.name, o.prob)) = [(Facts.biasFatigue, 1), (Facts.biasReversal, 1 / 2)] := by
+  obtain ⟨resp, h⟩ := e2e_ok_of_isOk (x := Rdm.decide id e2eExWs e2eExSeeds) (by decide +kernel)
+  obtain ⟨mp, params, _, _, _, _, hco, hnc, _, hb, _⟩ := decideWith_frame _ _ _ _ _ h
+  refine ⟨resp, h, hco, ?_, ?_⟩
+  · rw [hnc]; decide
+  · rw [hb]; decide +kernel
 
 end Rdm.Props.C01
